@@ -37,7 +37,7 @@ func (r Resolver) LookupAddr(addr string) []string {
 }
 
 func (r Resolver) LookupHost(name string) []string {
-	name = strings.ToLower(name)
+	name = lowerASCII(name)
 	for _, s := range r {
 		if addrs := s.LookupHost(name); len(addrs) > 0 {
 			return addrs
